@@ -272,6 +272,8 @@ class SK(object):
         self.steps = 0
         self.decisions = None       # None: undecidable float comparisons are unsupported; list: replayed / extended fork decisions
         self.trace = []
+        self.generic_eq = 0         # number of ==/!= tests between an abstract float and a number decided by genericity
+        self.exact = False          # exact mode: literal initial fills take part in arithmetic as their numbers (symbolic drivers)
         self.text = False           # text mode: strings are concrete (str(), +, join are faithful; an abstract float prints as <label>)
         self.copies = {}            # id(source list) -> (source, [deep copies made of it]); working-copy discipline (SS1)
         self.stale = []             # (node, index): element of a copied source read after the working copy's element changed
@@ -352,6 +354,8 @@ class SK(object):
             fi = self.m.lookup(b.obj._cls, e.attr, 'methods', after=b.after)
             if fi is None:
                 raise Unsupported('super().%s' % e.attr)
+            if ('method', fi.key) in self.abstracted:
+                return self.abstracted[('method', fi.key)]
             return FnRef(fi, bound=b.obj)
         if isinstance(b, dict) and e.attr in ('get', 'pop', 'items', 'keys', 'values'):
             return Py(lambda sk, node, *a, _b=b, _n=e.attr: getattr(_b, _n)(*a), 'dict.' + e.attr)
@@ -371,6 +375,12 @@ class SK(object):
         for x in (a, b):
             if x is None or isinstance(x, (list, dict)):
                 raise Violation('SK2', 'placeholder %r used in arithmetic' % (x,), node)
+        if self.exact:
+            # exact mode: a literal initial fill (0.0 / 1.0) is its number
+            if isinstance(a, Tok) and a.kind == 'PH0' and isinstance(a.val, (int, float)):
+                a = a.val
+            if isinstance(b, Tok) and b.kind == 'PH0' and isinstance(b.val, (int, float)):
+                b = b.val
         if isinstance(a, Ord) and isinstance(b, Ord) and op is o.sub:
             return Gap(a.rank - b.rank)
         if isinstance(a, Gap) and isinstance(b, (int, float)) and not isinstance(b, bool) and op in (o.truediv, o.mul) and b != 0:
@@ -527,6 +537,16 @@ class SK(object):
                     k = len(self.trace)
                     res = self.decisions[k] if k < len(self.decisions) else True
                     self.trace.append(res)
+                    if not res:
+                        return False
+                    l = r
+                    continue
+                if isinstance(op, (ast.Eq, ast.NotEq)) and (isinstance(l, (int, float)) or isinstance(r, (int, float))) and \
+                        all(not isinstance(x, Tok) or x.kind == 'DEF' for x in (l, r)):
+                    # an abstract float stands for a generic real: it equals no particular number (the exactly-equal path is the
+                    # business of the drivers that place structural zeros)
+                    self.generic_eq += 1
+                    res = isinstance(op, ast.NotEq)
                     if not res:
                         return False
                     l = r
